@@ -11,7 +11,7 @@ import mprop
 import straceplay
 from vlib import log
 
-SCEN_INJ = [("src/lib.rs", "replay_scenario.rs", "verif_replay_scenario")]
+SCEN_INJ = [("src/lib.rs", "replay_scenario.rs", "verif_replay_scenario"), ("src/lib.rs", "replay_open.rs", "verif_replay_open")]
 _strace_cache = {}
 
 
@@ -21,7 +21,23 @@ def real_trace():
     return _strace_cache["t"]
 
 
+_replay_cache = {}
+
+
 def replay(prop, ob, kind, role):
+    """one native run per (replay kind, role): several paths/entry points with the same role share it"""
+    if kind.startswith("probe:") and (kind, role) in _replay_cache:
+        rep, out = _replay_cache[(kind, role)]
+        path = vlib.write_replay(prop, {"property": prop, "obligation": ob.name, "role": role, "detail": ob.detail,
+                                        "values": ob.cex, "replay": kind, "source_digest": vlib.src_digest()})
+        return rep, path, out
+    rep, path, out = _replay(prop, ob, kind, role)
+    if kind.startswith("probe:") and rep is not None:
+        _replay_cache[(kind, role)] = (rep, out)
+    return rep, path, out
+
+
+def _replay(prop, ob, kind, role):
     payload = {"property": prop, "obligation": ob.name, "role": role, "detail": ob.detail, "values": ob.cex,
                "replay": kind, "source_digest": vlib.src_digest()}
     path = vlib.write_replay(prop, payload)
